@@ -531,6 +531,28 @@ fn enc_file(out: &mut Vec<u64>, path: &Path, ids: &Ids) {
     }
     out.push(torn as u64);
 }
+/// index.json / index.json.tmp as the model sees it: present?, default thread + 1 (0 = none), per thread: listed?
+/// (a file that does not parse is encoded as 2: the model has no such state)
+fn enc_idx(out: &mut Vec<u64>, path: &Path, ids: &Ids, nthreads: usize) {
+    let Ok(bytes) = std::fs::read(path) else {
+        out.push(0);
+        return;
+    };
+    let Ok(v) = serde_json::from_slice::<serde_json::Value>(&bytes) else {
+        out.push(2);
+        return;
+    };
+    out.push(1);
+    let dflt = v["workspaces"].as_object().and_then(|m| m.values().next().and_then(|x| x.as_str().map(|x| x.to_string())));
+    out.push(match dflt {
+        None => 0,
+        Some(d) => ids.threads.iter().position(|t| *t == d).map(|i| i as u64 + 1).unwrap_or(9_999_999),
+    });
+    for t in 0..nthreads {
+        let listed = ids.threads.get(t).map(|id| v["continuities"].get(id).is_some()).unwrap_or(false);
+        out.push(listed as u64);
+    }
+}
 fn enc_disk(out: &mut Vec<u64>, root: &Path, ids: &Ids, nthreads: usize) {
     enc_file(out, &truth_path(root), ids);
     for t in 0..nthreads {
@@ -543,6 +565,8 @@ fn enc_disk(out: &mut Vec<u64>, root: &Path, ids: &Ids, nthreads: usize) {
             _ => out.push(0),
         }
     }
+    enc_idx(out, &index_json_path(root), ids, nthreads);
+    enc_idx(out, &index_json_path(root).with_extension("json.tmp"), ids, nthreads);
 }
 
 // ------------------------------------------------------------------ reads (C04 comparison on the recovered store)
@@ -1392,6 +1416,22 @@ fn main() {
     }
     // run the workloads on a few threads, collect in workload order
     install_recorder();
+    // self-test of the generic crash points: std's fs calls on this thread must go through the entry points defined
+    // in `fsx` (a toolchain that issued raw syscalls instead would silently lose every generic crash point)
+    {
+        let probe = scratch.path().join("fsx-probe");
+        std::fs::create_dir_all(&probe).unwrap();
+        fsx::set_root(&probe);
+        let n0 = fsx::SEEN.load(Ordering::SeqCst);
+        fsx::arm(true);
+        std::fs::write(probe.join("a.tmp"), b"x").unwrap();
+        std::fs::rename(probe.join("a.tmp"), probe.join("a")).unwrap();
+        std::fs::remove_file(probe.join("a")).unwrap();
+        fsx::arm(false);
+        let seen = fsx::SEEN.load(Ordering::SeqCst) - n0;
+        assert!(seen >= 4, "c05: file-system interposition inactive (saw {seen} of the 4 probe effects: create, write, rename, unlink)");
+        let _ = std::fs::remove_dir_all(&probe);
+    }
     let nworkers = std::thread::available_parallelism().map(|n| n.get()).unwrap_or(4).clamp(2, 8).min(workloads.len().max(1));
     let next = std::sync::atomic::AtomicUsize::new(0);
     type Done = (Vec<CaseOut>, Vec<String>);
